@@ -241,6 +241,13 @@ class _Continue(Exception):
     pass
 
 
+class _LocalFn:
+    """a function defined inside the body being executed (closure over the environment at call time)"""
+
+    def __init__(self, node: ast.FunctionDef):
+        self.node = node
+
+
 class _Until(Exception):
     def __init__(self, env):
         self.env = env
@@ -319,6 +326,8 @@ def exec_function(it: "ModelInterp", fn: ast.FunctionDef, bind: Dict[str, Any], 
                 raise _Return(sub().ev(st.value) if st.value is not None else None)
             elif isinstance(st, ast.Pass):
                 continue
+            elif isinstance(st, ast.FunctionDef) and not st.args.vararg and not st.args.kwarg and not st.decorator_list:
+                env[st.name] = _LocalFn(st)
             elif isinstance(st, ast.Break):
                 raise _Break()
             elif isinstance(st, ast.Continue):
@@ -393,6 +402,16 @@ class ModelInterp(Interp):
                 base = None
             if isinstance(base, dict) and ("." + e.attr) in base:
                 return base["." + e.attr]
+        if isinstance(e, ast.Set):
+            vals = [self.ev(x) for x in e.elts]
+            if not all(_hashable(v) for v in vals):
+                raise Raises("TypeError", u(e)[:60])
+            return frozenset(vals)
+        if isinstance(e, ast.Compare) and len(e.ops) == 1 and isinstance(e.ops[0], (ast.GtE, ast.LtE, ast.Gt, ast.Lt)):
+            a, b = self.ev(e.left), self.ev(e.comparators[0])
+            if isinstance(a, (set, frozenset)) and isinstance(b, (set, frozenset)):
+                op = e.ops[0]
+                return a >= b if isinstance(op, ast.GtE) else a <= b if isinstance(op, ast.LtE) else a > b if isinstance(op, ast.Gt) else a < b
         if isinstance(e, ast.UnaryOp) and isinstance(e.op, ast.USub):
             v = self.ev(e.operand)
             if isinstance(v, (int, float)) and not isinstance(v, bool):
@@ -508,6 +527,18 @@ class ModelInterp(Interp):
 
     def _call(self, c: ast.Call, it: "Interp"):
         f = c.func
+        if isinstance(f, ast.Name) and isinstance(self.names.get(f.id), _LocalFn):
+            fn = self.names[f.id].node
+            params = [a.arg for a in fn.args.posonlyargs + fn.args.args]
+            bind = dict(zip(params, [self.ev(a) for a in c.args]))
+            bind.update({k.arg: self.ev(k.value) for k in c.keywords if k.arg})
+            defaults = dict(zip(params[len(params) - len(fn.args.defaults):], fn.args.defaults))
+            for p_ in params:
+                if p_ not in bind:
+                    if p_ not in defaults:
+                        raise DTop("unbound parameter " + p_)
+                    bind[p_] = self.ev(defaults[p_])
+            return exec_function(self._sub(dict(self.names)), fn, bind)
         if isinstance(f, ast.Name):
             args = [self.ev(a) for a in (c.args[:1] if f.id == "isinstance" else c.args)]
             if f.id == "len":
@@ -700,6 +731,31 @@ class SymInterp(Interp):
                 if k not in d:
                     raise Raises("KeyError", u(e)[:60])
                 return d[k]
+            if isinstance(d, Sym) and d.text != u(e.value):
+                return Sym(f"{d.text}[{u(e.slice)}]")  # the selected object, subscripted
+            return Sym(u(e))
+        if isinstance(e, ast.Call) and isinstance(e.func, ast.Name) and e.func.id == "next" and e.args and isinstance(e.args[0], ast.GeneratorExp) and not e.keywords:
+            # next((m for m in CANDIDATES if TEST), default): the first candidate that passes the test
+            g = e.args[0]
+            if len(g.generators) == 1 and isinstance(g.generators[0].target, ast.Name):
+                cands = self.ev(g.generators[0].iter)
+                if isinstance(cands, (tuple, list)):
+                    name = g.generators[0].target.id
+                    for c in cands:
+                        sub = type(self)(lambda ex, c=c, name=name: c if isinstance(ex, ast.Name) and ex.id == name else self.atoms(ex), self.calls)
+                        ok = True
+                        for t in g.generators[0].ifs:
+                            tv = sub.ev(t)
+                            if isinstance(tv, Sym):
+                                raise DTop(f"test over an unbound value: {tv.text[:60]}")
+                            if not sub.truth(tv):
+                                ok = False
+                                break
+                        if ok:
+                            return sub.ev(g.elt)
+                    if len(e.args) > 1:
+                        return self.ev(e.args[1])
+                    raise Raises("StopIteration", u(e)[:60])
             return Sym(u(e))
         if isinstance(e, (ast.GeneratorExp, ast.ListComp)) or (isinstance(e, ast.Call) and isinstance(e.func, ast.Name) and e.func.id == "tuple"):
             try:
@@ -708,7 +764,7 @@ class SymInterp(Interp):
                 return Sym(u(e))
         if isinstance(e, ast.Call) and is_call_to(e, "__raise__"):
             return super().ev(e)
-        if isinstance(e, ast.Attribute) and isinstance(e.value, (ast.IfExp, ast.BoolOp)):
+        if isinstance(e, ast.Attribute) and (isinstance(e.value, (ast.IfExp, ast.BoolOp)) or (isinstance(e.value, ast.Call) and isinstance(e.value.func, ast.Name) and e.value.func.id == "next")):
             # (a if t else b).attr / (a or b).attr: the attribute of whichever object is selected
             base = self.ev(e.value)
             if isinstance(base, Sym):
